@@ -150,7 +150,16 @@ pub fn build(prop: &str, seed: u64, hist: u64, rng: &mut Rng, ids: &[String]) ->
     if fault_cfg.contains_key("dup") && !fault_cfg.contains_key("misroute") && rng.chance(50) {
         fault_cfg.insert("misroute".into(), 300);
     }
-    let ast = script::generate(rng, np, &flags, depth);
+    if prop == "C11" {
+        flags.streams = true;
+        flags.canon = true;
+        flags.folds = true;
+    }
+    let ast = match prop {
+        "C18" => script::gen_c18(rng, np),
+        "C13" => script::gen_c13(rng, np),
+        _ => script::generate(rng, np, &flags, depth),
+    };
     let script_text = script::render(&ast, ids);
     // service faults: drawn once per scenario (services stay deterministic within a history)
     if profile.contains("garbage") {
